@@ -157,16 +157,16 @@ def op_features(schema, op):
     return feats
 
 
+FEATURE_PRIORITY = ("resolver-under-nested-list", "mixed-representations", "resolver-in-member-fragment", "nested-resolver")
+
+
 def err_context(schema, op, err):
     """classify one TLC error record {c:[root,type,field], why} for the finding key (see design.d/C20.md)"""
     feats = op_features(schema, op)
     _, tn, fn = err["c"]
     why = err["why"]
     if why == "error-response":
-        for k in ("resolver-under-nested-list", "mixed-representations", "resolver-in-member-fragment", "nested-resolver"):
-            if k in feats:
-                return k
-        return "plain"
+        return next((k for k in FEATURE_PRIORITY if k in feats), "plain")
     here = []
     for s, ptn, f in walk(schema, op):
         if s["name"] == fn and (ptn == tn or tn in ("Query", "Mutation")):
@@ -462,12 +462,15 @@ class Batch:
             raise lib.Inconclusive("generator produced an operation gqlparser rejects (%s): %s" % (o["err"][:200], o["text"][:300]))
         if o["stage"] == "panic":
             msg = re.sub(r"0x[0-9a-f]+", "0x?", o["err"].splitlines()[0])[:120]
-            key = "probe:%s:panic" % c["probe"] if c.get("probe") else "panic:%s:%s" % (msg, roots_of(c["op"]))
+            feats = op_features(schema, c["op"])
+            cx = next((k for k in FEATURE_PRIORITY if k in feats), "plain")
+            key = "probe:%s:panic" % c["probe"] if c.get("probe") else "%s:panic:%s:%s" % (cx, msg, roots_of(c["op"]))
             ctx.violation(key, "panic in the gRPC datasource (%s) for operation %s" % (msg, o["text"][:300]), replay_obj(c, o))
             return
         # parse / normalize / plan / load error for an operation over covered fields
-        feats = sorted(op_features(schema, c["op"])) or ["plain"]
-        key = ("probe:%s:%s" % (c["probe"], o["stage"])) if c.get("probe") else "%s:%s-error:%s" % (feats[0], o["stage"], roots_of(c["op"]))
+        feats = op_features(schema, c["op"])
+        cx = next((k for k in FEATURE_PRIORITY if k in feats), "plain")
+        key = ("probe:%s:%s" % (c["probe"], o["stage"])) if c.get("probe") else "%s:%s-error:%s" % (cx, o["stage"], roots_of(c["op"]))
         ctx.violation(key, "%s failed for a valid operation over mapped fields: %s — operation %s (lane %s)" % (
             o["stage"], o["err"][:200], o["text"][:300], c["lane"]), replay_obj(c, o))
 
